@@ -50,6 +50,9 @@ def fault_text(f, spec, at, full):
         if full:
             return "='[%s]%s'!A%d" % (G.book_name(spec, b), sn, 1 + v % 3)
         return '=%s!A%d' % (sn, 1 + v % 3)
+    if k == 'absent-sheet-with-name':
+        # one formula that uses a defined name of its own book AND a sheet that book does not have (fixed shapes only)
+        return '=SUM(%s)+%s!B%d' % (spec['names'][0]['name'], ['Old', 'Gone', 'zz9'][v % 3], 1 + v % 2)
     if k == 'absent-book':
         return "='[nofile%d.xlsx]S1'!B%d" % (v % 2, 1 + v % 3)
     if k == 'unreadable-book':
@@ -181,6 +184,20 @@ def check_spec(case):
     if not faults:
         return R(labels=['skipped:no-fault-for-path'])
     sp, fkeys = inject(spec, faults)
+    first_only = bool(case.get('first_only')) and path == 'file' and len(spec['books']) > 1
+    need = None
+    if first_only:
+        ev0 = {'books': sp['books'], 'names': sp.get('names', []),
+               'cells': [(c if 'raw' not in c else {'at': c['at'], 'v': None}) for c in sp['cells']]}
+        deps = W.depends_on(ev0)
+        need = {tuple(c['at']) for c in sp['cells'] if c['at'][0] == 0}
+        need |= {k for c in sp['cells'] if c['at'][0] == 0 for k in W.cell_keys(c)}
+        stack = list(need)
+        while stack:
+            for dk in deps.get(stack.pop(), ()):
+                if dk not in need:
+                    need.add(dk)
+                    stack.append(dk)
     fails = []
     kinds = [f['kind'] for f in faults]
     try:
@@ -191,7 +208,8 @@ def check_spec(case):
             with G.workdir() as d:
                 paths = write_files(sp, d)
                 make_bad_files(d, faults)
-                m = sut.ExcelModel().loads(*paths).finish()
+                # first_only: only the first book is given; the others (and their faults) are reached through its references
+                m = sut.ExcelModel().loads(*(paths[:1] if first_only else paths)).finish()
                 sol = m.calculate()
     except sut.Watchdog:
         raise
@@ -209,20 +227,31 @@ def check_spec(case):
     # the degraded model survives the JSON round trip: every cell keeps its value (error values included)
     try:
         import json
-        m2 = sut.ExcelModel().from_dict(json.loads(json.dumps(m.to_dict())))
+        import re
+        d1 = m.to_dict()
+        if any(isinstance(v, str) and v.startswith('=') and re.search(r'[-+]\s*[-+]', v) for v in d1.values()):
+            raise StopIteration  # a folded sign run in an exported formula is C09's listed finding F2
+        m2 = sut.ExcelModel().from_dict(json.loads(json.dumps(d1)))
         flat2, _ = G.flatten(m2.calculate())
         for k_ in sorted(flat, key=repr):
             a_, b_ = flat[k_], flat2.get(k_, sut.BLANK)
             if not X.same(a_, b_, 1e-12) and not (isinstance(a_, sut.Blank) and isinstance(b_, sut.Blank)):
                 fails_rt.append(('roundtrip|%s|%s->%s' % (path, X.cls(a_), X.cls(b_)), '%s: %r in the loaded model, %r after to_dict -> from_dict' % (k_, a_, b_)))
                 break
-    except sut.Watchdog:
+    except (sut.Watchdog, ):
         raise
+    except StopIteration:
+        pass
     except Exception as ex:
         fails_rt.append(('roundtrip|%s|raised:%s' % (path, type(ex).__name__), repr(ex)[:200]))
     over = []
     for f, key in zip(faults, fkeys):
         got = flat.get((G.sheet_id(sp, key[0], key[1]), key[2], key[3]), 'MISSING')
+        if need is not None and tuple(key) not in need:
+            # a fault in a part of a linked book that nothing of the first book reaches: not loaded, nothing to observe
+            over.append((list(key), PAIRS[f['variant'] % len(PAIRS)][2] if f['kind'] == 'intercepted-pair' else
+                         ['E', '#NAME?' if f['kind'] == 'unknown-fn' else '#REF!']))
+            continue
         if f['kind'] == 'intercepted-pair':
             want = PAIRS[f['variant'] % len(PAIRS)][2]
             if not (isinstance(got, float) and got == want):
@@ -240,6 +269,8 @@ def check_spec(case):
     ev_spec = {'books': sp['books'], 'names': sp.get('names', []),
                'cells': [(c if 'raw' not in c else {'at': c['at'], 'v': None}) for c in sp['cells']]}
     expected = W.evaluate(ev_spec, over)
+    if need is not None:
+        expected = {k: v for k, v in expected.items() if k in need}
     down = W.downstream(ev_spec, fkeys)
     sub_local = G.compare(sp_for_compare(sp), flat, {k: v for k, v in expected.items() if k not in down}, sub='nonlocal-' + path)
     sub_down = G.compare(sp_for_compare(sp), flat, {k: v for k, v in expected.items() if k in down and k not in fkeys}, sub='dependent-' + path)
@@ -252,7 +283,7 @@ def check_spec(case):
         if s_ not in seen:
             seen.add(s_)
             out.append((s_, d_))
-    labels = ['path:' + path] + ['fault:' + k for k in kinds] + (['has-own-dependents'] if own_down else []) + ['nfaults:%d' % len(faults)]
+    labels = ['path:' + path + ('-first-book-only' if first_only else '')] + ['fault:' + k for k in kinds] + (['has-own-dependents'] if own_down else []) + ['nfaults:%d' % len(faults)]
     return R(out, nt=bool(own_down and unaffected), n=len(expected), labels=labels)
 
 
@@ -275,9 +306,30 @@ def _fault():
 
 
 def _specs(tier):
-    return st.builds(lambda spec, faults, path: {'k': 'spec', 'spec': spec, 'faults': faults, 'path': path},
+    return st.builds(lambda spec, faults, path, fo: {'k': 'spec', 'spec': spec, 'faults': faults, 'path': path, 'first_only': fo},
                      G.specs(tier, max_books=2, wholecols=False, errors=False), st.lists(_fault(), min_size=1, max_size=3),
-                     st.sampled_from(['file', 'file', 'dict']))
+                     st.sampled_from(['file', 'file', 'dict']), st.booleans())
+
+
+def _linked_name_cases():
+    """Fixed shapes (added after seed c14-a-r4): only the first book is given to loads(); the linked book holds a defined name
+    used by its cells AND a reference to a sheet / book that does not exist; cells that only use the name keep their value."""
+    out = []
+    for kind, variant in (('absent-sheet', 1), ('absent-sheet', 0), ('absent-book', 1), ('unreadable-book', 2), ('absent-spill', 0), ('undefined-name', 1),
+                          ('absent-sheet-with-name', 0), ('absent-sheet-with-name', 1), ('absent-sheet-with-name', 2)):
+        for name_rect in ([1, 0, 1, 2, 1, 2], [1, 0, 1, 2, 2, 2]):
+            cells = [{'at': [1, 0, 1, 2], 'v': 30.0}, {'at': [1, 0, 2, 2], 'v': 5.0}, {'at': [1, 0, 5, 2], 'v': 1.0},
+                     {'at': [1, 0, 3, 2], 'f': ['bin', '+', ['fn', 'SUM', ['name', 0]], ['num', 0.0]]},
+                     {'at': [1, 0, 4, 2], 'f': ['bin', '+', ['ref', [1, 0, 5, 2]], ['ref', [1, 0, 3, 2]]]},
+                     {'at': [0, 0, 1, 1], 'f': ['bin', '+', ['ref', [1, 0, 4, 2]], ['num', 1.0]]},
+                     {'at': [0, 0, 2, 1], 'f': ['bin', '*', ['ref', [1, 0, 3, 2]], ['num', 2.0]]},
+                     {'at': [0, 0, 3, 1], 'f': ['fn', 'IFERROR', ['ref', [0, 0, 1, 1]], ['num', -1.0]]}]
+            spec = {'books': [{'name': 'b0.xlsx', 'sheets': ['S1']}, {'name': 'Ext.xlsx', 'sheets': ['Data']}], 'cells': cells,
+                    'names': [{'name': 'TOTAL_IN', 'rect': name_rect}]}
+            fault = {'kind': kind, 'variant': variant, 'replace': True, 'target': 2, 'loc': [1, 0, 1]}
+            for fo in (True, False):
+                out.append({'k': 'spec', 'spec': spec, 'faults': [fault], 'path': 'file', 'first_only': fo})
+    return out
 
 
 STRATEGIES = {'specs': _specs}
@@ -285,4 +337,4 @@ STRATEGIES = {'specs': _specs}
 
 def parts(tier, seed):
     q = tier == 'quick'
-    return [('hyp', 'specs', 1600 if q else 16000, 10)]
+    return [('hyp', 'specs', 1600 if q else 16000, 10), ('enum', 'linked-book-with-name-and-fault', _linked_name_cases(), 2, False)]
